@@ -42,6 +42,11 @@ def gen_case(rng, ctx):
         unit = 10**6
     base, unit, zone = maybe_zone(rng, base, unit, 0.04)
     pu = rng.choice([0, 1000, 1500, unit, 2 * unit, 5 * unit, 60 * 10**6, 10**9])
+    p_float = None
+    if rng.random() < 0.08:
+        # a pulsetime that is not a whole number of microseconds (the window is what timedelta(seconds=p) makes of it)
+        p_float = rng.choice([2 / 3, 1 / 3, 0.1 + 0.2, 1 / 7, 3.141592653589793, 1.0000004, 2.9999996, 10 / 3])
+        pu = td_us(timedelta(seconds=p_float))
     n = rng.randrange(1, 41)
     marathon = rng.random() < 0.08
     if marathon:
@@ -70,6 +75,8 @@ def gen_case(rng, ctx):
         else:
             dur = max(0, end_prev - ts) + rng.randrange(0, 4) * unit + rng.choice([0, 0, 1, 999])
         dur = max(dur, 0)
+        if rng.random() < 0.15:
+            dur += (-(ts + dur + pu)) % 1000        # end + pulsetime on a whole millisecond: the next heartbeat can sit exactly on the edge
         stream.append(dict(ts=ts, dur=dur, data=dict(reversed(list(data.items()))) if len(data) > 1 and rng.random() < 0.3 else data))
         end_prev = max(end_prev, ts + dur)
         r = rng.random()
@@ -117,7 +124,7 @@ def gen_case(rng, ctx):
     # the stream's events
     benign = {str(rng.randrange(0, n)): rng.choice(_BENIGN) for _ in range(rng.choice([0, 0, 1, 2, 3]))}
     return dict(backend=backend, stream=stream, pulse_us=pu, others=others, recreate_at=recreate_at, faults=faults,
-                benign=benign)
+                benign=benign, p_float=p_float)
 
 
 _BENIGN = ["update_hb_name", "update_hb_data", "update_hb_type", "update_hb_client_hostname", "update_hb_data_empty",
@@ -165,7 +172,7 @@ def run_case(case, ctx):
     backend = case["backend"]
     hbm = tmod("heartbeats")
     pu = case["pulse_us"]
-    p = pu / 10**6
+    p = case.get("p_float") or pu / 10**6
     if td_us(timedelta(seconds=p)) != pu:
         return [], dict(sig=("pulse-not-representable",), nontrivial=False)
     viols = []
